@@ -86,14 +86,12 @@ def r1_name_uniqueness(ctx):
   mm = [c for c in common.calls_in(ctx.repo.func('quantizer:Quantizer._get_quantized_model').node) if common.call_name(c).endswith('.modify_model')]
   gp = [c for c in common.calls_in(ctx.repo.func('quantizer:Quantizer._get_quantization_params').node) if common.call_name(c).endswith('.generate_quantization_parameters')]
   ctx.check(R, len(mm) == 1 and len(gp) == 1, q.node, q, 'plan from ParamsGenerator feeds ModelModifier', 'the model is modified with a plan that did not come from ParamsGenerator')
-  gq = cfgmod.build(q.node)
-  a = [n for n in gq.nodes if any(common.call_name(c).endswith('_get_quantization_params') for c in n.calls())]
-  b = [n for n in gq.nodes if any(common.call_name(c).endswith('_get_quantized_model') for c in n.calls())]
-  ok = len(a) == 1 and len(b) == 1 and gq.every_path_passes(gq.entry.id, b[0].id, {a[0].id})
+  # the argument of _get_quantized_model is (a local holding) the result of _get_quantization_params of this very call
+  calls_m = [c for c in common.calls_in(q.node) if common.call_name(c).endswith('_get_quantized_model')]
+  ok = len(calls_m) == 1 and len(calls_m[0].args) == 1
   if ok:
-    tgt = a[0].ast.targets[0].id if isinstance(a[0].ast, ast.Assign) and isinstance(a[0].ast.targets[0], ast.Name) else None
-    call = [c for c in b[0].calls() if common.call_name(c).endswith('_get_quantized_model')][0]
-    ok = tgt is not None and [ast.unparse(x) for x in call.args] == [tgt]
+    src = inl.inline(q, calls_m[0].args[0])
+    ok = isinstance(src, ast.Call) and common.call_name(src).endswith('_get_quantization_params')
   ctx.check(R, ok, q.node, q, 'quant_params -> _get_quantized_model', 'the modifier must receive exactly the plan generated in this call')
 
 
@@ -181,48 +179,68 @@ def r3_inserted_op(ctx):
 
 
 def r4_helpers(ctx):
+  """Helper contracts as tables (the helpers are run by the path interpreter on small stand-in models):
+  add_op_code returns the index of the FIRST entry with the requested builtin code and appends nothing, or appends one
+  entry with that code and returns its index; add_new_activation_tensor / add_new_constant_tensor append exactly one
+  tensor (and, for a constant, one buffer) and return the index the tensor has AFTER the call."""
   R = 'C01.R4'
-  ctx.rule(R, 'helper contracts: add_op_code returns the index of the code; new tensors get the id they are appended at', floor=3)
+  ctx.rule(R, 'helper contracts (tables): add_op_code returns the index of the code; new tensors get the id they are appended at', floor=3)
+  from sa import absint, consteval  # pylint: disable=g-import-not-at-top
+  from sa.consteval import Ext, Obj  # pylint: disable=g-import-not-at-top
   tu = ctx.repo.mod('transformations.transformation_utils')
   f = tu.func('add_op_code')
   ctx.instance(R)
-  ps = defuse.paths(f.node)
-  rets = [n for n in common.walk_no_nested(f.node) if isinstance(n, ast.Return)]
-  oc, lst = f.pos_params[:2]
-  ok_loop = False
-  for l in [n for n in common.walk_no_nested(f.node) if isinstance(n, ast.For)]:
-    if isinstance(l.iter, ast.Call) and common.call_name(l.iter) == 'enumerate' and ast.unparse(l.iter.args[0]) == lst and isinstance(l.target, ast.Tuple):
-      i, item = l.target.elts[0].id, l.target.elts[1].id
-      for st in l.body:
-        if isinstance(st, ast.If) and defuse.norm(st.test) in (f'{item}.builtinCode == {oc}', f'{oc} == {item}.builtinCode') and any(isinstance(x, ast.Return) and ast.unparse(x.value) == i for x in st.body):
-          ok_loop = True
-  ctx.check(R, ok_loop, f.node, f, 'existing code -> its index', 'an existing operator code must be found by builtinCode equality and its index returned')
-  g = cfgmod.build(f.node)
-  app = [n for n in g.nodes if any(isinstance(c.func, ast.Attribute) and c.func.attr == 'append' and ast.unparse(c.func.value) == lst for c in n.calls())]
-  last = [r for r in rets if defuse.norm(r.value) == f'len({lst}) - 1']
-  setc = [n for n in common.walk_no_nested(f.node) if isinstance(n, ast.Assign) and ast.unparse(n.targets[0]).endswith('.builtinCode') and ast.unparse(n.value) == oc]
-  ctx.check(R, len(app) == 1 and len(last) == 1 and len(setc) == 1 and g.every_path_passes(g.entry.id, g.node_of(last[0]).id, {app[0].id}), f.node, f, 'new code appended, index len-1',
-            'a missing operator code must be appended with the requested builtin code and its index len-1 returned')
+  BO = consteval.schema_enum('BuiltinOperator')
+  hooks = {
+      'schema_py_generated.OperatorCodeT': lambda a_, k: Obj('x:OperatorCodeT', {'builtinCode': 0}),
+      'schema_py_generated.TensorT': lambda a_, k: Obj('x:TensorT', {}),
+      'schema_py_generated.BufferT': lambda a_, k: Obj('x:BufferT', {'data': None}),
+  }
+  it = absint.Interp(ctx.repo, ctx.ev, hooks=hooks)
+  tv = lambda x: x.value if isinstance(x, Ext) else x
+  mk = lambda code: Obj('x:OperatorCodeT', {'builtinCode': Ext('BuiltinOperator.x', code)})
+  for codes, ask in (([3, 9, 6], 9), ([3, 9, 6], 3), ([3, 9, 6, 9], 9), ([3, 9, 6], 114), ([], 6), ([6], 6), ([0, 3], 0)):
+    lst = [mk(c) for c in codes]
+    before = list(lst)
+    outs = it.outcomes(f, [Ext('BuiltinOperator.asked', ask), lst], copy_args=False)
+    label = f'codes {codes}, requested {ask}'
+    if len(outs) != 1 or outs[0].kind != 'return':
+      ctx.check(R, False, f.node, f, label, f'not decided: {[o.short()[:80] for o in outs]}')
+      continue
+    got = outs[0].value
+    now = [tv(c.fields.get('builtinCode')) if isinstance(c, Obj) else None for c in lst]
+    if ask in codes:
+      ok = got == codes.index(ask) and now == codes and all(x is y for x, y in zip(lst, before))
+      ctx.check(R, ok, f.node, f, f'{label} -> index {got!r}, table {now}', f'an existing operator code must be found and its index {codes.index(ask)} returned; the table must not change')
+    else:
+      ok = got == len(codes) and now == codes + [ask]
+      ctx.check(R, ok, f.node, f, f'{label} -> index {got!r}, table {now}', f'a missing operator code must be appended with the requested builtin code and its index {len(codes)} returned')
   for name in ('add_new_activation_tensor', 'add_new_constant_tensor'):
     h = tu.func(name)
     ctx.instance(R)
-    gh = cfgmod.build(h.node)
-    ids = [n for n in gh.nodes if n.kind == 'stmt' and isinstance(n.ast, ast.Assign) and defuse.norm(n.ast.value) == 'len(subgraph.tensors)']
-    apps = [n for n in gh.nodes if any(isinstance(c.func, ast.Attribute) and c.func.attr == 'append' and ast.unparse(c.func.value) == 'subgraph.tensors' for c in n.calls())]
-    rets = [n for n in common.walk_no_nested(h.node) if isinstance(n, ast.Return)]
-    ok = len(ids) == 1 and len(apps) == 1 and len(rets) == 1
-    if ok:
-      var = ids[0].ast.targets[0].id
-      ok = ast.unparse(rets[0].value) == var and apps[0].id in gh.reachable([ids[0].id]) and ids[0].id not in gh.reachable([apps[0].id])
-    ctx.check(R, ok, h.node, h, 'id = len(tensors) read before the append', f'{name}: the returned id must be the length of the tensor list BEFORE the new tensor is appended')
-    if name == 'add_new_activation_tensor':
-      b = [n for n in common.walk_no_nested(h.node) if isinstance(n, ast.Assign) and ast.unparse(n.targets[0]).endswith('.buffer')]
-      ctx.check(R, len(b) == 1 and ast.unparse(b[0].value) == '0', h.node, h, 'buffer 0', 'activation tensors must point at the empty buffer 0')
-    else:
-      b = [n for n in common.walk_no_nested(h.node) if isinstance(n, ast.Assign) and defuse.norm(n.value) == 'len(buffers)']
-      ba = [n for n in gh.nodes if any(isinstance(c.func, ast.Attribute) and c.func.attr == 'append' and ast.unparse(c.func.value) == 'buffers' for c in n.calls())]
-      okb = len(b) == 1 and len(ba) == 1 and ba[0].id in gh.reachable([gh.node_of(b[0]).id]) and gh.node_of(b[0]).id not in gh.reachable([ba[0].id])
-      ctx.check(R, okb, h.node, h, 'buffer id = len(buffers) before append', 'the buffer id must be read before the buffer is appended')
+    for n_t, n_b in ((0, 1), (3, 2), (5, 7)):
+      tensors = [Obj('x:TensorT', {'name': f't{k}'.encode(), 'buffer': 0}) for k in range(n_t)]
+      bufs = [Obj('x:BufferT', {'data': None}) for _ in range(n_b)]
+      sg = Obj('x:SubGraphT', {'tensors': tensors})
+      from sa.ndarr import NdArr  # pylint: disable=g-import-not-at-top
+      args = [b'new', [1, 2], Ext('TensorType.FLOAT32', 0), sg] if name == 'add_new_activation_tensor' else [b'new', NdArr((2,), [1, 2], 'i'), Ext('TensorType.INT32', 2), sg, bufs]
+      outs = it.outcomes(h, args, copy_args=False)
+      label = f'{name}: {n_t} tensors, {n_b} buffers'
+      if len(outs) != 1 or outs[0].kind != 'return':
+        ctx.check(R, False, h.node, h, label, f'not decided: {[o.short()[:80] for o in outs]}')
+        continue
+      got = outs[0].value
+      T = sg.fields['tensors']
+      ok = isinstance(T, list) and len(T) == n_t + 1 and got == n_t and isinstance(T[n_t], Obj) and T[n_t].fields.get('name') == b'new' and all(x is y for x, y in zip(T, tensors))
+      ctx.check(R, ok, h.node, h, f'{label} -> id {got!r}, {len(T) if isinstance(T, list) else T!r} tensors', f'{name}: exactly one tensor must be appended and the returned id must be its index {n_t}')
+      if not ok:
+        continue
+      nb = T[n_t].fields.get('buffer')
+      if name == 'add_new_activation_tensor':
+        ctx.check(R, nb == 0, h.node, h, f'{label}: buffer {nb!r}', 'activation tensors must point at the empty buffer 0')
+      else:
+        ok = len(bufs) == n_b + 1 and nb == n_b and isinstance(bufs[n_b], Obj) and bufs[n_b].fields.get('data') is not None
+        ctx.check(R, ok, h.node, h, f'{label}: buffer {nb!r}, {len(bufs)} buffers', f'the constant must get a new buffer with its data, appended at index {n_b}, and point at it')
 
 
 def lower_bounds(f, expr, depth=0):
